@@ -224,6 +224,8 @@ def _gen_cat(rng, dump, cat, valid, veto=False):
             op = {"t": "createChild", "d": rng.choice(defs), "i": _fresh(D, "instance"), "ref": ref}
             if D["definition"][op["d"]]["children"] and rng.random() < 0.2:
                 op["veto"] = True
+                if rng.random() < 0.3:
+                    op["veto_ident"] = True      # refused through the EDIF identifier of an UNNAMED instance (parent under the EDIF policy)
             elif veto and ref is not None and rng.random() < 0.15:
                 op["veto_ref"] = True        # a guard listener refuses the reference step (engines with a guard only)
             return op
